@@ -41,6 +41,28 @@ theorem clauses_mean (w : World) (a : PAlloc) (h : eligViolations w a = []) :
     matchAny (some w.ask.res) (some a.res) false = true :=
   eligViolations_nil h
 
+/-- INHERITANCE OF THE POLICY. The preemption policy UpdateQueueProperties derives from a queue's merged property
+    texts (own texts over the filtered texts of the parent: mergeProperties / filterParentProperty) is `disabled`
+    exactly when the NEAREST configured preemption.policy on the queue's path — the queue itself first — reads
+    `disabled` in any spelling: `disabled` is handed down, every other value is not. -/
+theorem disabled_policy_inherited (qs : List QConf) (i : Nat) (q : QConf) (hq : qs[i]? = some q) :
+    (effSettings qs i).preempt = "disabled" ↔ inheritedDisabled qs i = true :=
+  derived_disabled_iff qs i q hq
+
+/-- ... hence, in a world whose queues carry the settings their configuration derives (`settingsDerived`, which the
+    driver establishes by COMPUTING the settings from the configured texts and comparing them with what the real queues
+    report), no potential victim lives below a queue configured `Disabled`/`DISABLED`/`disabled` unless a queue nearer
+    to it configures another policy. -/
+theorem victims_not_below_disabled (w : World) (hw : WF w) (hs : settingsDerived w = true) (s : Snap) (k : String)
+    (hsn : s ∈ findEligible w) (hk : k ∈ s.victims) :
+    ∃ a, a ∈ w.allocs ∧ a.key = k ∧ inheritedDisabled (confOf w) a.q = false := by
+  obtain ⟨a, ha, hak, _, hv⟩ := findEligible_eligible w hw s k hsn hk
+  obtain ⟨_, _, _, _, ⟨q, hq, _, hpol⟩, _⟩ := eligViolations_nil hv
+  refine ⟨a, ha, hak, ?_⟩
+  cases hd : inheritedDisabled (confOf w) a.q with
+  | false => rfl
+  | true => exact absurd (inherited_disabled_policy w hs a.q q hq hd) hpol
+
 /-- CheckPreconditions says yes only for an ask that allows preempting others, has not triggered preemption yet,
     does not require a node, is at least as old as the preemption delay of its queue and was not checked within the
     last preemptAttemptFrequency. -/
@@ -118,5 +140,11 @@ def exWorld : World :=
 example : (findEligible exWorld).map (fun s => (s.path, s.victims)) =
     [("root", []), ("root.a", []), ("root.b", ["b1"]), ("root.c", ["c9"])] := by decide
 example : downPrio exWorld [(0, 3), (1, 3)] 0 2 = some (1, false) ∧ downPrio exWorld [(0, 3), (1, 3)] 0 3 = some (3, true) := by decide
+
+/-- a parent configured `Disabled` hands the policy down to a child without own policy, not to one that says `default` -/
+example : inheritedDisabled [{ parent := none, leaf := false, own := [] }, { parent := some 0, leaf := false, own := [("preemption.policy", "Disabled")] },
+    { parent := some 1, leaf := true, own := [] }, { parent := some 1, leaf := true, own := [("preemption.policy", "default")] }] 2 = true ∧
+  (effSettings [{ parent := none, leaf := false, own := [] }, { parent := some 0, leaf := false, own := [("preemption.policy", "Disabled")] },
+    { parent := some 1, leaf := true, own := [] }, { parent := some 1, leaf := true, own := [("preemption.policy", "default")] }] 3).preempt = "default" := by decide
 
 end Yk.C07
